@@ -3,7 +3,8 @@ package main
 // component "ratelimit" (C19, runtime part): the recovery consumer is built by the REAL NewRecoveryConsumer (so the limiter
 // is the one the code constructs from configuration), then detached from its Kafka client; records are pushed as fast as
 // possible and the time until the last recovery event is measured.
-// input: "rate <r> parts <k> n <n> [seq|revoke]"
+// input: "rate <r> parts <k> n <n> [seq|revoke|setup]"
+//   setup:  source and recovery consumer are built by the real KafkaConsumer.Setup and a rebalance has happened before recovery starts
 //   seq:    the partitions' windows (n/k records each) are recovered one after the other, each to completion, so that the
 //           assignment changes k times while the limiter is in use
 //   revoke: once the burst is used up and a recovery record is waiting for its token, the main consumer gets a
@@ -32,6 +33,7 @@ func genRateLimit(r *rng, n int, tier string, emit func(string)) {
 	emit("rate 1500 parts 2 n 1400")
 	emit("rate 200 parts 6 n 600 seq")
 	emit("rate 1 parts 1 n 104 revoke")
+	emit("rate 300 parts 2 n 400 setup")
 	if tier == "thorough" {
 		emit("rate 50 parts 3 n 150")
 		emit("rate 5000 parts 4 n 4600")
@@ -60,14 +62,32 @@ func execRateLimit(input string) string {
 	ctx := &recordingContext{}
 	sendCh := make(chan firebolt.Event, 64)
 	cfg := map[string]string{"brokers": "127.0.0.1:1", "buffersize": "10", "parallelrecoverymaxrecords": "1000000", "parallelrecoverymaxrate": strconv.Itoa(rate)}
-	rc, err := kafkaconsumer.NewRecoveryConsumer("t", sendCh, cfg, m, ctx)
-	if err != nil {
-		return "harness-error " + err.Error()
-	}
+	var rc *kafkaconsumer.RecoveryConsumer
+	var kc *kafkaconsumer.KafkaConsumer
 	client := newScriptedConsumer()
-	rc.VerifDetach(client, sendCh)
+	if mode == "setup" {
+		// source and recovery consumer as the application gets them: built by the real KafkaConsumer.Setup, then detached from
+		// their Kafka clients; a rebalance (revocation, new assignment) has happened before recovery starts
+		cfg["consumergroup"], cfg["topic"], cfg["parallelrecoveryenabled"] = "g", "t", "true"
+		kc = &kafkaconsumer.KafkaConsumer{}
+		kc.Init("verif-source", ctx)
+		if err := kc.Setup(cfg, sendCh); err != nil {
+			return "harness-error " + err.Error()
+		}
+		kc.VerifDetachMain(newScriptedConsumer())
+		rc = kc.VerifRecoveryConsumer()
+		rc.VerifDetach(client, sendCh)
+		kc.VerifProcessEvent(kafka.RevokedPartitions{})
+	} else {
+		var err error
+		rc, err = kafkaconsumer.NewRecoveryConsumer("t", sendCh, cfg, m, ctx)
+		if err != nil {
+			return "harness-error " + err.Error()
+		}
+		rc.VerifDetach(client, sendCh)
+		kc = kafkaconsumer.VerifNewKafkaConsumer(newScriptedConsumer(), "t", sendCh, 0, m, rc, ctx)
+	}
 	limit, burst := rc.VerifLimiter()
-	kc := kafkaconsumer.VerifNewKafkaConsumer(newScriptedConsumer(), "t", sendCh, 0, m, rc, ctx)
 	topic := "t"
 	var tps []kafka.TopicPartition
 	per := (n + parts - 1) / parts
